@@ -61,6 +61,8 @@ CUCKOO_TABLE_NAME *CUCKOO(_read)(FILE *fp) {
     errno = ENOMEM;
     return NULL;
   }
+  tbl->t.minimum_load_factor(0);
+  tbl->t.maximum_hashpower(libcuckoo::NO_MAXIMUM_HASHPOWER);
   CUCKOO_KEY_ALIAS key;
   CUCKOO_MAPPED_ALIAS mapped;
   for (size_t i = 0; i < tbl_size; ++i) {
